@@ -270,6 +270,10 @@ def twin(case, cap_for=True):
             elif op == "constval": regs[s[1]] = s[2]
             elif op == "bin":
                 a, b = regs[s[3]], regs[s[4]]
+                if s[2] in ("lt", "le", "gt", "ge") and isinstance(a, int) and isinstance(b, int):
+                    # a comparison is decided on a difference that has to fit the bitlength: outside that the library refuses (its documented domain)
+                    d = {"lt": b - a - 1, "le": b - a, "gt": a - b - 1, "ge": a - b}[s[2]]
+                    if abs(d).bit_length() > case["cfg"]["n"]: raise TwinError("overflow")
                 regs[s[1]] = {"add": lambda: a + b, "sub": lambda: a - b, "mul": lambda: a * b, "lt": lambda: int(a < b), "le": lambda: int(a <= b),
                               "eq": lambda: int(a == b), "ne": lambda: int(a != b), "gt": lambda: int(a > b), "ge": lambda: int(a >= b),
                               "floordiv": lambda: a // b, "mod": lambda: a % b}[s[2]]()
@@ -305,14 +309,15 @@ def twin(case, cap_for=True):
                 regs[s[1]] = t
             elif op == "oif":
                 _, cn, thenb, elifs, elseb = s
-                if regs[cn]: ev(thenb)
-                else:
-                    done = False
-                    for cb, cr, body in elifs:
-                        ev(cb)
-                        if regs[cr]:
-                            ev(body); done = True; break
-                    if not done and elseb is not None: ev(elseb)
+                # the oblivious chain evaluates the condition of EVERY _elif (outside the previous branch's guard), also after a branch
+                # was taken: a condition outside the library's domain there is outside the side conditions of the construct
+                done = bool(regs[cn])
+                if done: ev(thenb)
+                for cb, cr, body in elifs:
+                    ev(cb)
+                    if not done and regs[cr]:
+                        ev(body); done = True
+                if not done and elseb is not None: ev(elseb)
             elif op == "owhile":
                 _, cb, cr, iters, body = s
                 k = 0
